@@ -47,6 +47,23 @@ def groups(tier):
 # ------------------------------------------------------------------------------------------
 # grammar
 # ------------------------------------------------------------------------------------------
+VALOPS = ["A@u", "A@u()", "u@At", "u()@At", "b*u", "u*b", "c*u", "u*c", "u/c"]
+AMAT = np.array([[1.0, 2.0, 0.5], [-0.5, 3.0, 1.0], [0.25, -1.0, 2.0]])       # non-symmetric
+BVEC = np.array([2.0, -3.0, 1.5])
+CSCA = 2.5
+
+
+def valop_matrix(kind, q):
+    """matrix M (q x q) such that the expression denotes M applied to the field value"""
+    if kind in ("A@u", "A@u()", "u@At", "u()@At"):
+        return AMAT[:q, :q]
+    if kind in ("b*u", "u*b"):
+        return np.diag(BVEC[:q])
+    if kind in ("c*u", "u*c"):
+        return CSCA * np.eye(q)
+    return np.eye(q) / CSCA
+
+
 def gen_lin(rng, typ, vector, depth):
     """random lin AST of tensor type typ in {'s','v','m'} for a scalar (vector=False), a vector
     field with dof_n == dim (vector=True) or with dof_n != dim (vector='rect': the gradient is a
@@ -54,9 +71,9 @@ def gen_lin(rng, typ, vector, depth):
     opts = []
     if vector == "rect":
         if typ == "v":
-            opts = ["Val"]
+            opts = ["Val", "ValOp"]
         elif typ == "m":
-            opts = ["Grad"] + (["Add"] if depth > 0 else [])
+            opts = ["Grad"] + (["Add", "MatL"] if depth > 0 else [])
     elif not vector:
         if typ == "s":
             opts = ["Val", "Dir"]
@@ -64,9 +81,9 @@ def gen_lin(rng, typ, vector, depth):
             opts = ["Grad"]
     else:
         if typ == "v":
-            opts = ["Val"]
+            opts = ["Val", "ValOp", "ValOp"]
         elif typ == "m":
-            opts = ["Grad", "SymGrad"] + (["Transp", "TraceI", "Add"] if depth > 0 else [])
+            opts = ["Grad", "SymGrad"] + (["Transp", "TraceI", "Add", "MatL"] if depth > 0 else [])
         elif typ == "s" and depth > 0:
             opts = ["Trace"]
     if depth > 0 and opts and not (vector and typ == "s" and depth < 2):
@@ -78,6 +95,11 @@ def gen_lin(rng, typ, vector, depth):
         return (k,)
     if k == "Dir":
         return ("Dir", rng.choice([(1.0, 0.0, 0.0), (0.5, -1.0, 2.0), (0.0, 1.0, 0.0)]))
+    if k == "ValOp":
+        # a constant operand combined with the Field OBJECT (reflected / direct operators)
+        return ("ValOp", rng.choice(VALOPS))
+    if k == "MatL":
+        return ("MatL", gen_lin(rng, "m", vector, depth - 1))
     if k == "Transp":
         return ("Transp", gen_lin(rng, "m", vector, depth - 1))
     if k == "Trace":
@@ -119,6 +141,19 @@ def closure_lin(t, coefs, dim):
     if k == "Dir":
         b = np.array(t[1][:dim])
         return lambda u: u.grad.dot(b)
+    if k == "ValOp":
+        kind = t[1]
+
+        def f(u, kind=kind):
+            q = u.dof_n
+            A, At, b = AMAT[:q, :q], AMAT[:q, :q].T.copy(), BVEC[:q]
+            return {"A@u": lambda: A @ u, "A@u()": lambda: A @ u(), "u@At": lambda: u @ At, "u()@At": lambda: u() @ At,
+                    "b*u": lambda: b * u, "u*b": lambda: u * b, "c*u": lambda: CSCA * u, "u*c": lambda: u * CSCA, "u/c": lambda: u / CSCA}[kind]()
+        return f
+    if k == "MatL":
+        f = closure_lin(t[1], coefs, dim)
+        A = AMAT[:dim, :dim]
+        return lambda u: A @ f(u)
     if k == "Transp":
         f = closure_lin(t[1], coefs, dim)
         return lambda u: f(u).T
@@ -198,6 +233,16 @@ def dlin(t, D, b):
         T = np.zeros((D.Ne, D.nPg, n, n))
         T[..., 0, 0] = np.einsum("k,epk->ep", np.array(t[1][:n]), fgrad[..., :, 0])
         return T
+    if k == "ValOp":
+        M = np.zeros((n, n))
+        M[:D.dof_n, :D.dof_n] = valop_matrix(t[1], D.dof_n)
+        T = np.zeros((D.Ne, D.nPg, n, n))
+        T[..., :, 0] = np.einsum("km,epm->epk", M, fval)
+        return T
+    if k == "MatL":
+        M = np.zeros((n, n))
+        M[:D.dim, :D.dim] = AMAT[:D.dim, :D.dim]
+        return np.einsum("km,epml->epkl", M, dlin(t[1], D, b))
     if k == "Transp":
         return np.swapaxes(dlin(t[1], D, b), -1, -2)
     if k == "Trace":
@@ -272,6 +317,10 @@ def show(t):
         return {"Val": "u", "Grad": "grad(u)", "SymGrad": "Sym_Grad(u)"}[k]
     if k == "Dir":
         return "grad(u).%s" % (list(t[1]),)
+    if k == "ValOp":
+        return "[%s]" % t[1]
+    if k == "MatL":
+        return "A@(%s)" % show(t[1])
     if k == "Transp":
         return "(%s).T" % show(t[1])
     if k == "Trace":
@@ -290,7 +339,7 @@ def show(t):
 
 
 def uses_val(t):
-    return t[0] == "Val" or any(isinstance(x, tuple) and x and isinstance(x[0], str) and uses_val(x) for x in t[1:])
+    return t[0] in ("Val", "ValOp") or any(isinstance(x, tuple) and x and isinstance(x[0], str) and uses_val(x) for x in t[1:])
 
 
 # ------------------------------------------------------------------------------------------
@@ -727,6 +776,233 @@ def case_shared_forms(seed, tier):
     return recs
 
 
+def case_field_object_ops(gname, mesh):
+    """operators applied to Field OBJECTS (direct and reflected, constant operand on either side,
+    non-symmetric matrices, vectors, scalars) against the same operation done with numpy on the
+    field's values at the Gauss points; and the named forms (A @ u).dot(v), (u @ A).dot(v) against
+    the reference A[e][d] * UV_ab  /  A[d][e] * UV_ab"""
+    from EasyFEA.FEM import Field, BiLinearForm, MatrixType
+    from EasyFEA.FEM.Operators import Bilinear
+    recs = []
+    g = mesh.groupElem
+    mt = MatrixType.mass
+
+    def rec(name, ok, d, kind="field-ops"):
+        recs.append({"id": "fieldops:%s:%s" % (gname, name), "what": name, "ok": bool(ok), "detail": d, "form": name, "kind": kind, "tag": "generic"})
+    for q in sorted({1, g.dim, g.inDim}):
+        f = Field(g, q, mt)
+        A, b, c = AMAT[:q, :q], BVEC[:q], CSCA
+        ops = {"A@u": (lambda x: A @ x, lambda X: np.einsum("km,epm->epk", A, X)),
+               "u@A": (lambda x: x @ A, lambda X: np.einsum("epm,mk->epk", X, A)),
+               "b*u": (lambda x: b * x, lambda X: b * X), "u*b": (lambda x: x * b, lambda X: X * b),
+               "c*u": (lambda x: c * x, lambda X: c * X), "u*c": (lambda x: x * c, lambda X: X * c),
+               "c-u": (lambda x: c - x, lambda X: c - X), "u-c": (lambda x: x - c, lambda X: X - c),
+               "b-u": (lambda x: b - x, lambda X: b - X), "u-b": (lambda x: x - b, lambda X: X - b),
+               "c+u": (lambda x: c + x, lambda X: c + X), "b+u": (lambda x: b + x, lambda X: b + X),
+               "u/c": (lambda x: x / c, lambda X: X / c), "u/b": (lambda x: x / b, lambda X: X / b)}
+        if q == 1:
+            ops["c/u"] = (lambda x: c / x, lambda X: c / X)          # N_a != 0 at interior Gauss points
+        nd = g.nPe * q
+        for i in sorted({0, nd // 2, nd - 1}):
+            f._Set_current_active_node(i // q)
+            f._Set_current_active_dof(i % q)
+            X = np.array(np.asarray(f()), dtype=float)
+            for name, (op, ref) in ops.items():
+                try:
+                    with np.errstate(divide="ignore", invalid="ignore"):
+                        got = np.asarray(op(f), dtype=float)
+                        exp = ref(X)
+                    m = np.isfinite(exp)
+                    ok, d = close(np.where(m, got, 0.0), np.where(m, exp, 0.0)) if got.shape == exp.shape else (False, "shape %s vs %s" % (got.shape, exp.shape))
+                    rec("%s(dof_n=%d,i=%d)" % (name, q, i), ok, d)
+                except Exception as ex:
+                    rec("%s(dof_n=%d,i=%d)" % (name, q, i), False, "%s: %s" % (type(ex).__name__, str(ex)[:160]))
+        if q > 1:
+            fm = Field(g, q, mt)
+            UVs = np.asarray(Bilinear.UV(g, 1.0, dof_n=1, matrixType=mt))       # int N_a N_b
+            for name, form, M in (("(A@u).dot(v)", lambda u, v: (A @ u).dot(v), A.T), ("(u@A).dot(v)", lambda u, v: (u @ A).dot(v), A),
+                                  ("u.dot(A@v)", lambda u, v: u.dot(A @ v), A), ("(b*u).dot(v)", lambda u, v: (b * u).dot(v), np.diag(b))):
+                # entry ((a,d),(b,e)) = M[d][e] * int N_a N_b
+                try:
+                    ref = np.einsum("xab,de->xadbe", UVs, M).reshape(g.Ne, g.nPe * q, g.nPe * q)
+                    rec("%s=M.UV(dof_n=%d)" % (name, q), *close(BiLinearForm(form).Integrate_e(fm), ref), kind="builtin")
+                except Exception as ex:
+                    rec("%s=M.UV(dof_n=%d)" % (name, q), False, "%s: %s" % (type(ex).__name__, str(ex)[:160]), kind="raises")
+    return recs
+
+
+def graded_mesh(kind):
+    """meshes whose number of elements EQUALS the number of Gauss points of the rules in use,
+    with non-uniform element sizes (dyadic coordinates)"""
+    from corr import c16_impl as M
+    if kind == "QUAD4-2x2":
+        xs, ys = [0.0, 0.75, 2.0], [0.0, 1.25, 2.0]
+        coord = [[x, y, 0.0] for y in ys for x in xs]
+        conn = [[j * 3 + i, j * 3 + i + 1, (j + 1) * 3 + i + 1, (j + 1) * 3 + i] for j in range(2) for i in range(2)]
+        return M._mesh([("QUAD4", conn)], coord)
+    if kind == "TRI3-3":
+        return M._mesh([("TRI3", [[0, 1, 3], [1, 4, 3], [1, 2, 4]])], [[0, 0, 0], [1.5, 0, 0], [2, 0, 0], [0, 1, 0], [1, 1.25, 0]])
+    if kind == "HEXA8-2x2x2":
+        xs, ys, zs = [0.0, 0.75, 2.0], [0.0, 1.25, 2.0], [0.0, 0.5, 2.0]
+        coord = [[x, y, z] for z in zs for y in ys for x in xs]
+        nid = lambda i, j, k: k * 9 + j * 3 + i
+        conn = [[nid(i, j, k), nid(i + 1, j, k), nid(i + 1, j + 1, k), nid(i, j + 1, k),
+                 nid(i, j, k + 1), nid(i + 1, j, k + 1), nid(i + 1, j + 1, k + 1), nid(i, j + 1, k + 1)] for k in range(2) for j in range(2) for i in range(2)]
+        return M._mesh([("HEXA8", conn)], coord)
+    raise ValueError(kind)
+
+
+def case_coef_forms(gname, mesh):
+    """the SAME non-uniform per-element coefficient handed in every accepted form -- (Ne,) array,
+    (Ne, nPg) array, FeArray (Ne, 1) / (Ne, nPg) inside a user form -- must give the same element
+    arrays: built-in == built-in == user form == dedicated simulation; also per-Gauss-point
+    coefficients as (Ne, nPg) vs an explicit loop"""
+    from EasyFEA import Models, Simulations
+    from EasyFEA.FEM import Field, BiLinearForm, LinearForm, MatrixType, FeArray
+    from EasyFEA.FEM.Operators import Bilinear, Linear
+    recs = []
+    g = mesh.groupElem
+    Ne = g.Ne
+
+    def rec(name, ok, d, kind="coef-forms"):
+        recs.append({"id": "coef:%s:%s" % (gname, name), "what": name, "ok": bool(ok), "detail": d, "form": name, "kind": kind, "tag": "generic"})
+    k_e = 1.0 + 0.5 * np.arange(Ne) ** 2            # non-uniform, dyadic
+    for mt in (MatrixType.rigi, MatrixType.mass):
+        D = Data(g, 1, mt)
+        nPg = D.nPg
+        tagm = "%s,Ne=%d,nPg=%d" % (str(mt).split(".")[-1], Ne, nPg)
+        full = np.repeat(k_e[:, None], nPg, axis=1)
+        # explicit references from the raw arrays
+        refK = np.einsum("ep,epka,epkb->eab", D.w * full, D.dN, D.dN)
+        refM = np.einsum("ep,pa,pb->eab", D.w * full, D.N, D.N)
+        refF = np.einsum("ep,pa->ea", D.w * full, D.N)
+        fld = Field(g, 1, mt)
+        kfe1 = FeArray.asfearray(k_e.reshape(Ne, 1))
+        kfe2 = FeArray.asfearray(full)
+        variants = {"(Ne,)": k_e, "(Ne,nPg)": full, "FeArray(Ne,nPg)": kfe2}
+        for vn, kv in variants.items():
+            try:
+                rec("GradUGradV[%s] %s" % (vn, tagm), *close(Bilinear.GradUGradV(g, kv, mt), refK))
+                rec("UV[%s] %s" % (vn, tagm), *close(Bilinear.UV(g, kv, 1, mt), refM))
+                rec("V[%s] %s" % (vn, tagm), *close(np.asarray(Linear.V(g, kv, 1, mt)).reshape(Ne, -1), refF))
+                A = np.array([[2.0, 0.5, 0.0], [-0.25, 1.0, 0.5], [0.0, 0.25, 3.0]])[:g.dim, :g.dim]
+                refA = np.einsum("ep,epka,kl,eplb->eab", D.w * full, D.dN, A, D.dN)
+                rec("GradU_A_GradV[%s] %s" % (vn, tagm), *close(Bilinear.GradU_A_GradV(g, A, kv, mt), refA))
+            except Exception as ex:
+                rec("builtins[%s] %s" % (vn, tagm), False, "%s: %s" % (type(ex).__name__, str(ex)[:200]), kind="raises")
+        for vn, kv in (("FeArray(Ne,1)", kfe1), ("FeArray(Ne,nPg)", kfe2)):
+            try:
+                rec("user k*grad.grad[%s] %s" % (vn, tagm), *close(BiLinearForm(lambda u, v: kv * u.grad.dot(v.grad)).Integrate_e(fld), refK))
+                rec("user k*u.v[%s] %s" % (vn, tagm), *close(BiLinearForm(lambda u, v: kv * u.dot(v)).Integrate_e(fld), refM))
+                rec("user k*v[%s] %s" % (vn, tagm), *close(np.asarray(LinearForm(lambda v: kv * v).Integrate_e(fld))[..., 0], refF))
+            except Exception as ex:
+                rec("user[%s] %s" % (vn, tagm), False, "%s: %s" % (type(ex).__name__, str(ex)[:200]), kind="raises")
+        # genuinely per-Gauss-point coefficient, different in every element
+        kp = 1.0 + 0.25 * np.arange(Ne * nPg).reshape(Ne, nPg)
+        try:
+            rec("GradUGradV[(Ne,nPg) per point] %s" % tagm, *close(Bilinear.GradUGradV(g, kp, mt), np.einsum("ep,epka,epkb->eab", D.w * kp, D.dN, D.dN)))
+            if Ne != nPg:
+                k1 = 1.0 + 0.5 * np.arange(nPg)
+                rec("UV[(nPg,)] %s" % tagm, *close(Bilinear.UV(g, k1, 1, mt), np.einsum("ep,pa,pb->eab", D.w * k1[None, :], D.N, D.N)))
+        except Exception as ex:
+            rec("per-point %s" % tagm, False, "%s: %s" % (type(ex).__name__, str(ex)[:200]), kind="raises")
+    # dedicated simulation with a heterogeneous conductivity vs the weak form
+    try:
+        th = Simulations.Thermal(mesh, Models.Thermal(k=k_e, c=1.0, thickness=1.0))
+        fld = Field(g, 1)
+        kf = FeArray.asfearray(k_e.reshape(Ne, 1))
+        ws = Simulations.WeakForms(mesh, Models.WeakForms(fld, BiLinearForm(lambda u, v: kf * u.grad.dot(v.grad))))
+        rec("Thermal(k=(Ne,)) K vs weak form", *close(ws.Get_K_C_M_F()[0].toarray(), th.Get_K_C_M_F()[0].toarray()), kind="simulation")
+        Dr = Data(g, 1, fld.matrixType)
+        refK = np.einsum("ep,epka,epkb->eab", Dr.w * k_e[:, None], Dr.dN, Dr.dN)
+        rec("Thermal(k=(Ne,)) K vs explicit", *close(th.Get_K_C_M_F()[0].toarray(), scatter(g, 1, np.einsum("ep,epka,epkb->eab", Data(g, 1, MatrixType.rigi).w * k_e[:, None], Data(g, 1, MatrixType.rigi).dN, Data(g, 1, MatrixType.rigi).dN))), kind="simulation")
+    except Exception as ex:
+        rec("Thermal heterogeneous", False, "%s: %s" % (type(ex).__name__, str(ex)[:300]), kind="raises")
+    return recs
+
+
+def case_param_sequences(seed):
+    """assemble -> change a parameter of the weak-form model -> assemble again: the second
+    assembly must equal that of a freshly built weak-form simulation in the final configuration
+    and that of the dedicated simulation taken through the same change"""
+    from EasyFEA import Models, Simulations, ElemType
+    from EasyFEA.FEM import Field, BiLinearForm, LinearForm, Sym_Grad, Trace
+    from EasyFEA.Geoms import Domain
+    recs = []
+
+    def rec(name, ok, d):
+        recs.append({"id": "seq:%s" % name, "what": name, "ok": bool(ok), "detail": d, "form": name, "kind": "sequence", "tag": "generic"})
+    mesh = Domain((0, 0), (1, 1), 0.5).Mesh_2D([], ElemType.TRI6, isOrganised=True)
+    g = mesh.groupElem
+    rho = 2.0
+
+    def build_elastic(t):
+        mat = Models.Elastic.Isotropic(2, E=8.0, v=0.25, planeStress=True, thickness=t)
+        es = Simulations.Elastic(mesh, mat)
+        es.rho = rho
+        return es, mat
+
+    def build_weak(t, lam, mu):
+        fld = Field(g, 2)
+
+        def Kf(u, v):
+            Eps = Sym_Grad(u)
+            return (2 * mu * Eps + lam * Trace(Eps) * np.eye(2)).ddot(Sym_Grad(v))
+        ey = np.array([0.0, 1.0])
+        wf = Models.WeakForms(fld, BiLinearForm(Kf), computeM=BiLinearForm(lambda u, v: rho * u.dot(v)),
+                              computeF=LinearForm(lambda v: -2.0 * v.dot(ey)), thickness=t)
+        return Simulations.WeakForms(mesh, wf), wf
+    for t0, t1 in ((1.0, 0.25), (0.5, 2.0)):
+        name = "thickness %g->%g" % (t0, t1)
+        try:
+            es, mat = build_elastic(t0)
+            lam, mu = mat.get_lambda(), mat.get_mu()
+            ws, wf = build_weak(t0, lam, mu)
+            K0w, _, M0w, F0w = ws.Get_K_C_M_F()
+            K0e, _, M0e, _ = es.Get_K_C_M_F()
+            rec(name + ": K before", *close(K0w.toarray(), K0e.toarray()))
+            wf.thickness = t1
+            mat.thickness = t1
+            K1w, _, M1w, F1w = ws.Get_K_C_M_F()
+            K1e, _, M1e, _ = es.Get_K_C_M_F()
+            fresh, _ = build_weak(t1, lam, mu)
+            Kf_, _, Mf_, Ff_ = fresh.Get_K_C_M_F()
+            rec(name + ": K after == fresh weak-form simulation", *close(K1w.toarray(), Kf_.toarray()))
+            rec(name + ": M after == fresh weak-form simulation", *close(M1w.toarray(), Mf_.toarray()))
+            rec(name + ": F after == fresh weak-form simulation", *close(np.asarray(F1w.todense()), np.asarray(Ff_.todense())))
+            rec(name + ": K after == dedicated simulation", *close(K1w.toarray(), K1e.toarray()))
+            rec(name + ": M after == dedicated simulation", *close(M1w.toarray(), M1e.toarray()))
+            # and back again
+            wf.thickness = t0
+            rec(name + ": K after change back", *close(ws.Get_K_C_M_F()[0].toarray(), K0w.toarray()))
+        except Exception:
+            rec(name, False, traceback.format_exc()[-500:])
+    # scalar model: thickness change + solution
+    try:
+        from EasyFEA import SolverType
+        n0 = mesh.Nodes_Conditions(lambda x, y, z: x == 0)
+        fld = Field(g, 1)
+        wf = Models.WeakForms(fld, BiLinearForm(lambda u, v: 3.0 * u.grad.dot(v.grad)), computeF=LinearForm(lambda v: 2.0 * v), thickness=1.0)
+        ws = Simulations.WeakForms(mesh, wf)
+        ws.solver = SolverType.scipy
+        ws.add_dirichlet(n0, [0], ["u"])
+        ws.add_neumann(mesh.Nodes_Conditions(lambda x, y, z: x == 1), [1.0], ["u"])   # nodal load: not scaled by the thickness
+        u0 = ws.Solve().copy()
+        wf.thickness = 4.0
+        u1 = ws.Solve().copy()
+        fld2 = Field(g, 1)
+        wf2 = Models.WeakForms(fld2, BiLinearForm(lambda u, v: 3.0 * u.grad.dot(v.grad)), computeF=LinearForm(lambda v: 2.0 * v), thickness=4.0)
+        ws2 = Simulations.WeakForms(mesh, wf2)
+        ws2.solver = SolverType.scipy
+        ws2.add_dirichlet(n0, [0], ["u"])
+        ws2.add_neumann(mesh.Nodes_Conditions(lambda x, y, z: x == 1), [1.0], ["u"])
+        rec("scalar: solution after thickness 1->4 == fresh simulation", *close(u1, ws2.Solve()))
+        rec("scalar: the change matters (discriminating)", not np.allclose(u0, u1, rtol=1e-6), "max |u0-u1| = %.3g" % float(np.max(np.abs(u0 - u1))))
+    except Exception:
+        rec("scalar thickness sequence", False, traceback.format_exc()[-500:])
+    return recs
+
+
 def run(seed, tier, only=None):
     cases = []
     nform = 4 if tier == "quick" else 14
@@ -742,6 +1018,17 @@ def run(seed, tier, only=None):
     cases += case_simulations(seed)
     cases += case_simulations_F(seed)
     cases += case_shared_forms(seed, tier)
+    cases += case_param_sequences(seed)
+    for gname, mesh in [(gn, m) for gn, m in groups(tier) if gn in ("TRI3-fan", "TETRA4", "QUAD4-skew")] + [("TRI3-surf3d", surface_mesh_3d())]:
+        try:
+            cases += case_field_object_ops(gname, mesh)
+        except Exception:
+            cases.append({"id": "fieldops:%s" % gname, "what": "harness", "ok": False, "detail": traceback.format_exc()[-800:], "form": "", "kind": "harness", "tag": "generic"})
+    for kind in ["QUAD4-2x2", "TRI3-3"] + (["HEXA8-2x2x2"] if tier == "thorough" else []):
+        try:
+            cases += case_coef_forms(kind, graded_mesh(kind))
+        except Exception:
+            cases.append({"id": "coef:%s" % kind, "what": "harness", "ok": False, "detail": traceback.format_exc()[-800:], "form": "", "kind": "harness", "tag": "generic"})
     rect = [(gn, m) for gn, m in groups(tier) if gn in ("TETRA4", "HEXA8-skew", "PRISM6")] + [("TRI3-surf3d", surface_mesh_3d())]
     for gname, mesh in rect:
         try:
